@@ -4,10 +4,43 @@ from .common import short
 
 _cache = {}
 
+# container / message operations that rules name: wrappers with these names stay opaque even when crate-private
+VOCAB = {"pop_front", "pop_back", "pop", "push_front", "push_back", "push", "prepend", "split_off", "insert", "remove", "clear",
+         "take", "replace", "send", "recv", "try_send", "lock"}
 
-def paths(f, body, max_visits=2, cut_at_yield=False, max_paths=50000, **kw):
-    key = (id(f), body.path, max_visits, cut_at_yield, tuple(sorted(kw)))
+
+def default_inline(f):
+    """Virtual inlining policy: crate-private, synchronous, inherent/free helper functions are looked through, so that extracting
+    or merging a private helper does not move an anchor out of sight. Public functions, trait-impl methods (interface
+    points that rules name) and listed read-only accessors stay opaque."""
+    from .sym import PURE_NAMES
+
+    def pred(fn):
+        if not fn.get("local") or fn.get("trait"):
+            return False
+        r = fn.get("resolved") or {}
+        path = r.get("path") if r.get("kind") == "item" else fn["path"]
+        b = f.body(path)
+        if b is None or b.j.get("coroutine_kind") or b.kind not in ("Fn", "AssocFn") or b.n > 200:
+            return False
+        if b.j.get("impl_trait"):
+            return False
+        if fn["name"] in PURE_NAMES or fn["name"] in VOCAB:
+            return False
+        sig = f.fns.get(path)
+        if sig is None or sig.get("is_async"):
+            return False
+        if sig.get("vis", "").startswith("Public"):
+            return False
+        return True
+    return pred
+
+
+def paths(f, body, max_visits=2, cut_at_yield=False, max_paths=50000, inline=True, **kw):
+    key = (id(f), body.path, max_visits, cut_at_yield, inline, tuple(sorted(kw)))
     if key not in _cache:
+        if inline and "inline" not in kw:
+            kw = dict(kw, inline=default_inline(f), inline_depth=3)
         _cache[key] = Sym(f, max_visits=max_visits, cut_at_yield=cut_at_yield, max_paths=max_paths, **kw).paths(body)
     return _cache[key]
 
@@ -19,7 +52,7 @@ def is_poll(ev):
 
 def calls(p, *names, upto=None, polls=False):
     evs = p.events if upto is None else p.events[:upto]
-    return [(i, e) for i, e in enumerate(evs) if e.kind == "call" and e.extra != "inlined" and (not names or short(e.name) in names)
+    return [(i, e) for i, e in enumerate(evs) if e.kind == "call" and (not names or short(e.name) in names)
             and (polls or not is_poll(e))]
 
 
